@@ -721,3 +721,14 @@ Proof. exact p_term_render_sec. Qed.
 
 Lemma shipped_parse_ok : forallb parse_ok shipped_formats = true.
 Proof. vm_compute. reflexivity. Qed.
+
+Lemma shipped_parse_ok_In E : shipped E -> parse_ok E = true.
+Proof. intros H. pose proof shipped_parse_ok as H1. rewrite forallb_forall in H1. now apply H1. Qed.
+
+(* the theorem for the three shipped formats, spelled out *)
+Theorem p_term_render_shipped : forall (F : Type) (is_alnum : N -> bool) (E : efmt), shipped E ->
+  forall (t : sterm) (v : term) (k : str) (L : nat) (st : pstate F) (fuel : nat),
+    odesugar t = Some v -> unamb is_alnum E t k = true ->
+    wf F L st -> s_rest st = render E t ++ k -> (sdepth t < fuel)%nat ->
+    p_term F is_alnum E fuel st = POk v (step F (length (render E t)) st).
+Proof. intros F is_alnum E HE. exact (p_term_render F is_alnum E (shipped_parse_ok_In E HE)). Qed.
